@@ -59,7 +59,9 @@ func c07Cases(c *Ctx) []c07Case {
 	return out
 }
 
-func c07Payload(tag int64) string { return fmt.Sprintf("payload-%d-%x", tag, uint64(tag)*0x9E3779B97F4A7C15) }
+func c07Payload(tag int64) string {
+	return fmt.Sprintf("payload-%d-%x", tag, uint64(tag)*0x9E3779B97F4A7C15)
+}
 
 // c07Server builds the server under test: every handler answers correctly,
 // and panics when the request is marked.
@@ -443,8 +445,8 @@ func c07Crash(s *Super, ph Phase, stderr string, partial *PhaseResult) []Phase {
 	}
 	s.merged.Counts["server_process_deaths"]++
 	s.merged.Violations = append(s.merged.Violations, Violation{
-		Key:  "server process died: " + pr.Kind,
-		What: fmt.Sprintf("fault %s/%s took the whole server process down: %s", pr.Kind, pr.Place, msg),
+		Key:    "server process died: " + pr.Kind,
+		What:   fmt.Sprintf("fault %s/%s took the whole server process down: %s", pr.Kind, pr.Place, msg),
 		Detail: map[string]any{"phase": ph.Name, "fault_index": pr.Index, "kind": pr.Kind, "place": pr.Place, "stderr_tail": tail(stderr, 3000)},
 	})
 	if pr.Index < 0 || s.merged.Counts["server_process_deaths"] >= 100 {
